@@ -622,6 +622,82 @@ func runProxy(sc proxyScenario) (problems []string, skipped string) {
 	if err != nil {
 		return nil, "dial endpoint: " + err.Error()
 	}
+	if sc.fault == "sever-backlog" {
+		// the application is slow to accept: dials queue up in the endpoint (10 buffered, the rest parked
+		// in sendAccept); the tunnel is lost; then the application accepts what was handed to it
+		for i := 0; srv.VerifEndpointPtr("epA") == 0; i++ {
+			if i > 2000 {
+				return nil, "endpoint never registered"
+			}
+			time.Sleep(time.Millisecond)
+		}
+		hello := snix.ClientHello("a.test")
+		var fronts []net.Conn
+		for i := 0; i < 12+sc.tunnels; i++ {
+			c, err := net.Dial("tcp", lis.Addr().String())
+			if err != nil {
+				return nil, "front dial: " + err.Error()
+			}
+			c.Write(hello)
+			fronts = append(fronts, c)
+		}
+		time.Sleep(300 * time.Millisecond)
+		td.severFirst()
+		time.Sleep(300 * time.Millisecond)
+		var got []net.Conn
+		for errs := 0; errs < 60 && len(got) < len(fronts); {
+			ch := make(chan net.Conn, 1)
+			go func() {
+				c, err := ep.Accept()
+				if err != nil {
+					ch <- nil
+					return
+				}
+				ch <- c
+			}()
+			select {
+			case c := <-ch:
+				if c == nil {
+					errs++
+					time.Sleep(5 * time.Millisecond)
+				} else {
+					got = append(got, c)
+				}
+			case <-time.After(watchdog + 6*time.Second):
+				problems = append(problems, "Endpoint.Accept did not return after the tunnel was lost")
+				errs = 1000
+			}
+		}
+		var rw sync.WaitGroup
+		var pmu sync.Mutex
+		for i, c := range got {
+			rw.Add(1)
+			go func(i int, c net.Conn) {
+				defer rw.Done()
+				c.SetReadDeadline(time.Now().Add(watchdog + 6*time.Second))
+				_, err := io.Copy(io.Discard, c)
+				if ne, ok := err.(net.Error); ok && ne.Timeout() {
+					pmu.Lock()
+					problems = append(problems, fmt.Sprintf("read on accepted connection %d (handed over around the loss of the tunnel) still blocked 12 s later", i))
+					pmu.Unlock()
+				}
+				c.Close()
+			}(i, c)
+		}
+		rw.Wait()
+		for _, c := range fronts {
+			c.Close()
+		}
+		hx.WithTimeout(watchdog+6*time.Second, func() { ep.Close() })
+		cancel()
+		select {
+		case <-frontDone:
+		case <-time.After(watchdog + 6*time.Second):
+			problems = append(problems, "ServeFront did not return after cancel")
+		}
+		ts.CloseClientConnections()
+		return problems, ""
+	}
 	// endpoint application: echo
 	var appWg sync.WaitGroup
 	acceptReturned := make(chan error, 1)
@@ -794,11 +870,11 @@ func main() {
 		for i := 0; i < nr; i++ {
 			ops = append(ops, genRace(r).ops()...)
 		}
-		for _, fault := range []string{"sever", "kick", "endpoint-close", "cancel", "kick-hung"} {
+		for _, fault := range []string{"sever", "kick", "endpoint-close", "cancel", "kick-hung", "sever-backlog"} {
 			ops = append(ops, proxyScenario{fault, 2, "legacy"}.canon())
 		}
 		for i := 0; i < np; i++ {
-			ops = append(ops, proxyScenario{hx.Pick(r, []string{"sever", "kick", "endpoint-close", "cancel", "kick-hung"}), r.Intn(4), hx.Pick(r, []string{"legacy", "legacy", "siding"})}.canon())
+			ops = append(ops, proxyScenario{hx.Pick(r, []string{"sever", "kick", "endpoint-close", "cancel", "kick-hung", "sever-backlog"}), r.Intn(4), hx.Pick(r, []string{"legacy", "legacy", "siding"})}.canon())
 		}
 	}
 	var lines []string
